@@ -86,7 +86,7 @@ BUDGET = {"quick": 45, "thorough": 420}
 NCASES = {"quick": 8000, "thorough": 120000}
 CASE_TIMEOUT = 40.0
 EVAL_COUNTER = "cases"
-FLOORS = {'quick': {'case_held': 1500, 'effective': 1300, 'rejected_as_required': 170, 'identity_checks': 170, 'form_groups_held': 650, 'deriv_held': 200, 'nonterminal_held': 170, 'literal_sweep_held': 350}, 'thorough': {'case_held': 25000, 'effective': 22000, 'rejected_as_required': 3000, 'identity_checks': 3000, 'form_groups_held': 11000, 'deriv_held': 3600, 'nonterminal_held': 3000, 'literal_sweep_held': 350, 'suite:replace:held': 150}}
+FLOORS = {'quick': {'case_held': 1500, 'effective': 1300, 'rejected_as_required': 170, 'identity_checks': 170, 'form_groups_held': 650, 'deriv_held': 200, 'nonterminal_held': 170, 'literal_sweep_held': 350, 'formsum_held': 100}, 'thorough': {'case_held': 25000, 'effective': 22000, 'rejected_as_required': 3000, 'identity_checks': 3000, 'form_groups_held': 11000, 'deriv_held': 3600, 'nonterminal_held': 3000, 'literal_sweep_held': 350, 'formsum_held': 1500, 'suite:replace:held': 150}}
 COVER_FLOORS = {
     "quick": {"families_held": ["expr", "form", "deriv", "nonterminal"], "itypes_held": ["cell", "exterior_facet", "interior_facet"]},
     "thorough": {"families_held": ["expr", "form", "deriv", "nonterminal"], "itypes_held": ["cell", "exterior_facet", "interior_facet"]},
@@ -1474,12 +1474,68 @@ def once(ctx):
             ctx.case_index = None
 
 
+def family_formsum(ctx, i, rng):
+    """replace() on a weighted sum of cofunctions (a FormSum, e.g. a residual 2*c1 + 5*c2 - 7*c3): the value of the sum is
+    sum_i weight_i * value(component_i); cofunctions are mapped to other cofunctions or to the zero form.  Oracle: numbers
+    for the cofunctions."""
+    from ufl.form import FormSum, ZeroBaseForm
+
+    from .. import elements as E
+
+    cell, gdim = rng.choice([("interval", 1), ("triangle", 2), ("tetrahedron", 3)])
+    mesh = E.mesh_for(cell, gdim)
+    V = ufl.FunctionSpace(mesh, E.P(cell, rng.choice([1, 2])))
+    k = rng.choice([2, 3, 3, 4])
+    cs = [ufl.Cofunction(V.dual()) for _ in range(k + 2)]
+    weights = rng.sample([2, 3, 5, -7, 11, 0.5, -1, 13], k)
+    F = None
+    for c_, w_ in zip(cs[:k], weights):
+        F = w_ * c_ if F is None else F + w_ * c_
+    numbers = {c_: float(10 ** q) for q, c_ in enumerate(cs)}
+    zero = ZeroBaseForm((ufl.TestFunction(V),))
+    mapping = {}
+    for c_ in rng.sample(cs[:k], rng.choice([1, 1, 2])):
+        mapping[c_] = zero if rng.random() < 0.6 else rng.choice(cs[k:])
+
+    def value(G, nums):
+        if isinstance(G, ZeroBaseForm):
+            return 0.0
+        if isinstance(G, ufl.Cofunction):
+            return nums[G]
+        if isinstance(G, FormSum):
+            return sum(complex(w_) * value(c_, nums) for c_, w_ in zip(G.components(), G.weights()))
+        raise TypeError(type(G).__name__)
+
+    sub = dict(numbers)
+    for kk, img in mapping.items():
+        sub[kk] = value(img, numbers)
+    expected = value(F, sub)
+    try:
+        R = rng.choice([replace_alg, ufl.replace])(F, mapping)
+        observed = value(R, numbers)
+    except Exception as ex:
+        ctx.count("formsum_rejected")
+        ctx.covered("formsum_rejected_with", type(ex).__name__ + ": " + str(ex)[:60])
+        return
+    ctx.count("formsum_checked")
+    if abs(observed - expected) > 1e-9 * max(1.0, abs(expected)):
+        pattern = "earlier-component-vanishes" if any(isinstance(mapping.get(c_), ZeroBaseForm) for c_ in cs[: k - 1]) else "renaming"
+        ctx.violation(f"C21/formsum/value/{pattern}",
+                      f"replace on the weighted sum {F} with {len(mapping)} mapped cofunction(s): value {observed}, expected {expected}",
+                      {"sum": str(F)[:400], "weights": [repr(w_) for w_ in weights], "mapping": {str(a): str(b)[:60] for a, b in mapping.items()}, "result": str(R)[:400]})
+        return
+    ctx.count("formsum_held")
+
+
 DISPATCH = {"expr": family_expr, "form": family_form, "shape": family_shape, "identity": family_identity, "deriv": family_deriv, "nonterminal": family_nonterminal}
 
 
 def case(ctx, i, rng):
     if i < 0:
         return literal_sweep(ctx)
+    if rng.random() < 0.04:
+        ctx.count("family_formsum")
+        return family_formsum(ctx, i, rng)
     fam = rng.choice(FAMILIES)
     ctx.count("family_" + fam)
     DISPATCH[fam](ctx, i, rng)
